@@ -1,3 +1,9 @@
+/-
+Invariant of the `SetCache` LTS (one foreground task, background events between its operations),
+the correctness of `get` for the repaired configuration, and for the code as it is inside the
+trigger-free region `getSafe` (at most one staged operation per element; no staged removal among the
+materialised prefix of a spilled fetch).
+-/
 import QbiceVerif.Model.SetCache
 namespace QbiceVerif.SetCache
 
@@ -768,6 +774,480 @@ theorem step_write {s s' : State} {x : Nat} {ins : Bool} (I : Inv s) (h : write 
             exact ⟨b', by simp, by simp [b'], he⟩
       · simp at ho'; subst ho'
         exact ⟨b.epoch, Nat.le_refl _, Or.inr ⟨b', by simp, by simp [b'], rfl⟩⟩
+
+
+
+
+theorem get_fst_fields (s : State) : (get s).1.cfg = s.cfg ∧ (get s).1.truth = s.truth := by
+  unfold get
+  cases s.entry with
+  | some e => cases e <;> simp
+  | none =>
+      simp only [fetchEntry]
+      split <;> simp
+
+theorem write_cfg {s s' : State} {x ins} (h : write s x ins = some s') : s'.cfg = s.cfg := by
+  unfold write at h
+  cases ho : s.openB with
+  | none => simp [ho] at h
+  | some b => simp [ho] at h; subst h; rfl
+
+theorem fire_cfg {s s' : State} {e out} (h : fire s e = some (s', out)) : s'.cfg = s.cfg := by
+  cases e <;> simp only [fire] at h
+  case begin => split at h <;> simp at h; obtain ⟨rfl, _⟩ := h; rfl
+  case ins x => simp at h; obtain ⟨a, ha, rfl, _⟩ := h; exact write_cfg ha
+  case rem x => simp at h; obtain ⟨a, ha, rfl, _⟩ := h; exact write_cfg ha
+  case get => simp at h; obtain ⟨rfl, _⟩ := h; exact (get_fst_fields s).1
+  case submit => split at h <;> simp at h; obtain ⟨rfl, _⟩ := h; rfl
+  case commit => split at h <;> simp at h; obtain ⟨rfl, _⟩ := h; rfl
+  case notify => split at h <;> simp at h; obtain ⟨rfl, _⟩ := h; rfl
+  case evictEntry => split at h <;> simp at h; obtain ⟨rfl, _⟩ := h; rfl
+  case evictLog => (repeat' split at h) <;> simp at h; obtain ⟨rfl, _⟩ := h; rfl
+
+/-- every step preserves the invariant; what a `get` returns is the true set -/
+theorem inv_step {s s' : State} {e : Ev} {out} (I : Inv s) (hc : s.cfg = repaired)
+    (h : fire s e = some (s', out)) :
+    Inv s' ∧ (∀ r, out = some r → (∀ x, x ∈ r ↔ x ∈ s.truth) ∧ s'.truth = s.truth) := by
+  cases e with
+  | begin => refine ⟨step_begin I h, ?_⟩; intro r hr; simp only [fire] at h; split at h <;> simp at h; simp [← h.2] at hr
+  | ins x =>
+      simp only [fire] at h; simp at h; obtain ⟨a, ha, rfl, rfl⟩ := h
+      exact ⟨step_write I ha, by intro r hr; simp at hr⟩
+  | rem x =>
+      simp only [fire] at h; simp at h; obtain ⟨a, ha, rfl, rfl⟩ := h
+      exact ⟨step_write I ha, by intro r hr; simp at hr⟩
+  | get =>
+      simp only [fire] at h; simp at h; obtain ⟨rfl, rfl⟩ := h
+      obtain ⟨h1, h2⟩ := get_correct I hc
+      exact ⟨h2, by intro r hr; simp at hr; subst hr; exact ⟨h1, (get_fst_fields s).2⟩⟩
+  | submit => refine ⟨step_submit I h, ?_⟩; intro r hr; simp only [fire] at h; split at h <;> simp at h; simp [← h.2] at hr
+  | commit => refine ⟨step_commit I h, ?_⟩; intro r hr; simp only [fire] at h; split at h <;> simp at h; simp [← h.2] at hr
+  | notify => refine ⟨step_notify I h, ?_⟩; intro r hr; simp only [fire] at h; split at h <;> simp at h; simp [← h.2] at hr
+  | evictEntry => refine ⟨step_evictEntry I h, ?_⟩; intro r hr; simp only [fire] at h; split at h <;> simp at h; simp [← h.2] at hr
+  | evictLog => refine ⟨step_evictLog I h, ?_⟩; intro r hr; simp only [fire] at h; (repeat' split at h) <;> simp at h; simp [← h.2] at hr
+
+theorem run_outputs {s : State} (I : Inv s) (hc : s.cfg = repaired) :
+    ∀ {sched : List Ev} {s' outs}, run s sched = some (s', outs) → ∀ p ∈ outs, ∀ x, x ∈ p.1 ↔ x ∈ p.2 := by
+  intro sched
+  induction sched generalizing s with
+  | nil => intro s' outs h; simp [run] at h; obtain ⟨_, rfl⟩ := h; simp
+  | cons e es ih =>
+      intro s' outs h
+      simp only [run] at h
+      cases hf : fire s e with
+      | none => simp [hf] at h
+      | some r =>
+          obtain ⟨s1, out⟩ := r
+          simp only [hf] at h
+          obtain ⟨I1, hout⟩ := inv_step I hc hf
+          have hc1 : s1.cfg = repaired := by rw [fire_cfg hf]; exact hc
+          cases hr : run s1 es with
+          | none => simp [hr] at h
+          | some r2 =>
+              obtain ⟨s2, outs2⟩ := r2
+              simp only [hr] at h
+              have ih' := ih I1 hc1 hr
+              cases out with
+              | none => simp at h; obtain ⟨_, rfl⟩ := h; exact ih'
+              | some r =>
+                  simp at h; obtain ⟨_, rfl⟩ := h
+                  intro p hp
+                  simp at hp
+                  rcases hp with rfl | hp
+                  · obtain ⟨h1, h2⟩ := hout r rfl
+                    intro x; simp [h1 x, h2]
+                  · exact ih' p hp
+
+theorem inv_reach {thr : Nat} {db0 : List Nat} {s : State} (h : Reach (init repaired thr db0) s) :
+    Inv s ∧ s.cfg = repaired := by
+  induction h with
+  | init => exact ⟨inv_init _ _ _, rfl⟩
+  | step _ hf ih => exact ⟨(inv_step ih.1 ih.2 hf).1, by rw [fire_cfg hf]; exact ih.2⟩
+
+
+
+
+theorem swapAt_perm (v : List LogOp) (i j : Nat) : (swapAt v i j).Perm v := by
+  unfold swapAt
+  cases hi : v[i]? with
+  | none => simp
+  | some a =>
+    cases hj : v[j]? with
+    | none => simp
+    | some b =>
+      simp only
+      have hil : i < v.length := by
+        rcases Nat.lt_or_ge i v.length with h | h
+        · exact h
+        · rw [List.getElem?_eq_none h] at hi; cases hi
+      have hjl : j < v.length := by
+        rcases Nat.lt_or_ge j v.length with h | h
+        · exact h
+        · rw [List.getElem?_eq_none h] at hj; cases hj
+      have hia : v[i] = a := by rw [List.getElem?_eq_getElem hil] at hi; exact Option.some.inj hi
+      have hjb : v[j] = b := by rw [List.getElem?_eq_getElem hjl] at hj; exact Option.some.inj hj
+      by_cases hij : i = j
+      · subst hij
+        have : a = b := by rw [← hia, ← hjb]
+        subst this
+        rw [List.perm_iff_count]
+        intro c
+        have hjl' : i < (v.set i a).length := by simpa using hil
+        rw [List.count_set hjl', List.count_set hil]
+        simp only [List.getElem_set_self, hia]
+        have : (a == c) = true → 1 ≤ List.count c v := by
+          intro h; have : a = c := by simpa using h
+          subst this; rw [← hia]; exact List.count_pos_iff.mpr (List.getElem_mem hil)
+        split <;> simp_all <;> omega
+      · rw [List.perm_iff_count]
+        intro c
+        have hjl' : j < (v.set i b).length := by simpa using hjl
+        rw [List.count_set hjl', List.count_set hil]
+        rw [List.getElem_set_ne hij hjl', hia, hjb]
+        have ha : (a == c) = true → 1 ≤ List.count c v := by
+          intro h; have : a = c := by simpa using h
+          subst this; rw [← hia]; exact List.count_pos_iff.mpr (List.getElem_mem hil)
+        by_cases h1 : (a == c) = true <;> by_cases h2 : (b == c) = true <;> simp [h1, h2] <;> (try have := ha h1) <;> omega
+
+theorem siftUp_perm (v : List LogOp) (pos fuel : Nat) : (siftUp v pos fuel).Perm v := by
+  induction fuel generalizing v pos with
+  | zero => simp [siftUp]
+  | succ n ih =>
+      simp only [siftUp]
+      split
+      · exact List.Perm.refl _
+      · split
+        · split
+          · exact List.Perm.refl _
+          · exact (ih _ _).trans (swapAt_perm _ _ _)
+        · exact List.Perm.refl _
+
+theorem heapPush_perm (v : List LogOp) (op : LogOp) : (heapPush v op).Perm (v ++ [op]) :=
+  siftUp_perm _ _ _
+
+theorem foldl_heapPush_perm (log acc : List LogOp) : (log.foldl heapPush acc).Perm (acc ++ log) := by
+  induction log generalizing acc with
+  | nil => simp
+  | cons op rest ih =>
+      simp only [List.foldl_cons]
+      refine (ih _).trans ?_
+      have := (heapPush_perm acc op).append_right rest
+      simpa using this
+
+theorem heapOrder_perm (log : List LogOp) : (heapOrder log).Perm log := by
+  have := foldl_heapPush_perm log []
+  simpa [heapOrder] using this
+
+
+
+
+theorem cancel_fold_nodup (l : List LogOp) (sn : Snapshot)
+    (hnd : (l.map (·.x)).Nodup)
+    (hfresh : ∀ op ∈ l, op.x ∉ sn.added ∧ op.x ∉ sn.removed) (x : Nat) :
+    (x ∈ (l.foldl cancelStep sn).added ↔ x ∈ sn.added ∨ ∃ op ∈ l, op.x = x ∧ op.ins = true) ∧
+    (x ∈ (l.foldl cancelStep sn).removed ↔ x ∈ sn.removed ∨ ∃ op ∈ l, op.x = x ∧ op.ins = false) := by
+  induction l generalizing sn with
+  | nil => simp
+  | cons op rest ih =>
+      simp only [List.map_cons, List.nodup_cons] at hnd
+      obtain ⟨hnot, hnd'⟩ := hnd
+      have hop := hfresh op (by simp)
+      have hne : ∀ op' ∈ rest, op'.x ≠ op.x := by
+        intro op' h' heq
+        exact hnot (List.mem_map.mpr ⟨op', h', heq⟩)
+      simp only [List.foldl_cons]
+      cases hi : op.ins with
+      | true =>
+          have hstep : cancelStep sn op = { sn with added := sinsert op.x sn.added } := by
+            simp [cancelStep, hi, hop.2]
+          rw [hstep]
+          have := ih { sn with added := sinsert op.x sn.added } hnd' (by
+            intro op' h'
+            have := hfresh op' (by simp [h'])
+            simp [mem_sinsert, hne op' h', this.1, this.2])
+          rw [this.1, this.2]
+          simp only [mem_sinsert, List.mem_cons]
+          constructor <;> constructor <;> intro h <;> grind
+      | false =>
+          have hstep : cancelStep sn op = { sn with removed := sinsert op.x sn.removed } := by
+            simp [cancelStep, hi, hop.1]
+          rw [hstep]
+          have := ih { sn with removed := sinsert op.x sn.removed } hnd' (by
+            intro op' h'
+            have := hfresh op' (by simp [h'])
+            simp [mem_sinsert, hne op' h', this.1, this.2])
+          rw [this.1, this.2]
+          simp only [mem_sinsert, List.mem_cons]
+          constructor <;> constructor <;> intro h <;> grind
+
+theorem lastOf_pairs_nodup (log : List LogOp) (hnd : (log.map (·.x)).Nodup) (x : Nat) (b : Bool) :
+    lastOf (pairs log) x = some b ↔ ∃ op ∈ log, op.x = x ∧ op.ins = b := by
+  induction log with
+  | nil => simp [pairs, lastOf]
+  | cons op rest ih =>
+      simp only [List.map_cons, List.nodup_cons] at hnd
+      obtain ⟨hnot, hnd'⟩ := hnd
+      have ih' := ih hnd'
+      simp only [pairs, List.map_cons, lastOf]
+      simp only [pairs] at ih'
+      cases hl : lastOf (List.map (fun op => (op.x, op.ins)) rest) x with
+      | some v =>
+          have hex : ∃ op' ∈ rest, op'.x = x := by
+            have : lastOf (List.map (fun op => (op.x, op.ins)) rest) x ≠ none := by rw [hl]; simp
+            obtain ⟨p, hp, hx⟩ := lastOf_ne_none_iff.mp this
+            obtain ⟨op', h', rfl⟩ := List.mem_map.mp hp
+            exact ⟨op', h', hx⟩
+          obtain ⟨op', h', hx'⟩ := hex
+          have hne : op.x ≠ x := by
+            intro heq; exact hnot (List.mem_map.mpr ⟨op', h', by rw [hx', heq]⟩)
+          simp only []
+          rw [← hl, ih']
+          constructor
+          · rintro ⟨o, ho, h1, h2⟩; exact ⟨o, List.mem_cons_of_mem _ ho, h1, h2⟩
+          · rintro ⟨o, ho, h1, h2⟩
+            rcases List.mem_cons.mp ho with rfl | ho'
+            · exact absurd h1 hne
+            · exact ⟨o, ho', h1, h2⟩
+      | none =>
+          have hno : ¬ ∃ op' ∈ rest, op'.x = x := by
+            rintro ⟨op', h', hx'⟩
+            have : lastOf (List.map (fun op => (op.x, op.ins)) rest) x ≠ none :=
+              lastOf_ne_none_iff.mpr ⟨(op'.x, op'.ins), List.mem_map.mpr ⟨op', h', rfl⟩, hx'⟩
+            exact this hl
+          simp only []
+          by_cases hx : op.x = x
+          · simp only [hx, if_true]
+            constructor
+            · intro h; exact ⟨op, by simp, hx, by simpa using h⟩
+            · rintro ⟨o, ho, h1, h2⟩
+              rcases List.mem_cons.mp ho with rfl | ho'
+              · simp [h2]
+              · exact absurd ⟨o, ho', h1⟩ hno
+          · simp only [hx, if_false]
+            constructor
+            · intro h; cases h
+            · rintro ⟨o, ho, h1, h2⟩
+              rcases List.mem_cons.mp ho with rfl | ho'
+              · exact absurd h1 hx
+              · exact absurd ⟨o, ho', h1⟩ hno
+
+/-- as-is `get_snapshot` on a log with at most one operation per element = the repaired one -/
+theorem snapshot_asis_nodup {s : State} (hc : s.cfg.fixSnap = false)
+    (hnd : ((logOf s).map (·.x)).Nodup) (x : Nat) :
+    (x ∈ (stagingSnapshot s).added ↔ lastOf (pairs (logOf s)) x = some true) ∧
+    (x ∈ (stagingSnapshot s).removed ↔ lastOf (pairs (logOf s)) x = some false) := by
+  unfold stagingSnapshot
+  cases hs : s.staging with
+  | none => simp [logOf, hs, pairs, lastOf]
+  | some p =>
+      obtain ⟨log, d⟩ := p
+      have hlog : logOf s = log := by simp [logOf, hs]
+      rw [hlog] at hnd ⊢
+      simp only [snapshotOf, hc]
+      have hperm := heapOrder_perm log
+      have hnd' : ((heapOrder log).map (·.x)).Nodup := (hperm.map _).nodup_iff.mpr hnd
+      have := cancel_fold_nodup (heapOrder log) ⟨[], []⟩ hnd' (by simp) x
+      simp only [Bool.false_eq_true, if_false]
+      rw [this.1, this.2, lastOf_pairs_nodup log hnd, lastOf_pairs_nodup log hnd]
+      simp only [List.not_mem_nil, false_or]
+      constructor
+      · constructor
+        · rintro ⟨o, ho, h⟩; exact ⟨o, hperm.mem_iff.mp ho, h⟩
+        · rintro ⟨o, ho, h⟩; exact ⟨o, hperm.mem_iff.mpr ho, h⟩
+      · constructor
+        · rintro ⟨o, ho, h⟩; exact ⟨o, hperm.mem_iff.mp ho, h⟩
+        · rintro ⟨o, ho, h⟩; exact ⟨o, hperm.mem_iff.mpr ho, h⟩
+
+
+
+
+theorem dropWhile_spec (p : Nat → Bool) (rest : List Nat) :
+    (rest.dropWhile p = [] ∧ rest.filter (fun x => !p x) = []) ∨
+    (∃ r rest', rest.dropWhile p = r :: rest' ∧ rest.filter (fun x => !p x) = r :: rest'.filter (fun x => !p x) ∧
+      rest'.length < rest.length) := by
+  induction rest with
+  | nil => simp
+  | cons a as ih =>
+      by_cases hp : p a = true
+      · simp only [List.dropWhile_cons, hp, if_true, List.filter_cons, Bool.not_true, Bool.false_eq_true, if_false]
+        rcases ih with h | ⟨r, rest', h1, h2, h3⟩
+        · exact Or.inl h
+        · exact Or.inr ⟨r, rest', h1, h2, by simp; omega⟩
+      · simp only [List.dropWhile_cons, hp, if_false, List.filter_cons]
+        right
+        exact ⟨a, as, rfl, by simp [hp], by simp⟩
+
+theorem spillAsIs_nohalf (removed : List Nat) (fuel : Nat) :
+    ∀ (rest added : List Nat), rest.length + added.length < fuel →
+      spillIterAsIs removed [] rest added fuel = rest.filter (fun x => x ∉ removed) ++ added := by
+  induction fuel with
+  | zero => intro rest added h; omega
+  | succ n ih =>
+      intro rest added h
+      simp only [spillIterAsIs]
+      have hfil : rest.filter (fun x => x ∉ removed) = rest.filter (fun x => !(decide (x ∈ removed))) := by
+        congr 1; funext x; simp
+      rw [hfil]
+      rcases dropWhile_spec (fun x => decide (x ∈ removed)) rest with ⟨h1, h2⟩ | ⟨r, rest', h1, h2, h3⟩
+      · rw [h1, h2]
+        cases added with
+        | nil => simp
+        | cons a added' =>
+            simp only []
+            have := ih [] added' (by simp at h ⊢; omega)
+            rw [this]; simp
+      · rw [h1, h2]
+        simp only []
+        have := ih rest' added (by omega)
+        rw [this]
+        have hfil' : rest'.filter (fun x => x ∉ removed) = rest'.filter (fun x => !(decide (x ∈ removed))) := by
+          congr 1; funext x; simp
+        rw [hfil']; simp
+
+theorem spillAsIs_safe (removed : List Nat) (fuel : Nat) :
+    ∀ (half rest added : List Nat), (∀ h ∈ half, h ∉ removed) → half.length + rest.length + added.length < fuel →
+      spillIterAsIs removed half rest added fuel = half ++ rest.filter (fun x => x ∉ removed) ++ added := by
+  induction fuel with
+  | zero => intro half rest added _ h; omega
+  | succ n ih =>
+      intro half rest added hs h
+      cases half with
+      | nil => simpa using spillAsIs_nohalf removed (n + 1) rest added (by simpa using h)
+      | cons a half' =>
+          simp only [spillIterAsIs]
+          have ha : a ∉ removed := hs a (by simp)
+          simp only [ha, not_false_eq_true, if_true]
+          rw [ih half' rest added (fun x hx => hs x (by simp [hx])) (by simp at h; omega)]
+          simp
+
+
+
+
+theorem getSafe_nodup {s : State} (h : getSafe s = true) : ((logOf s).map (·.x)).Nodup := by
+  unfold getSafe at h
+  cases hs : s.staging with
+  | none => simp [logOf, hs]
+  | some p =>
+      obtain ⟨log, d⟩ := p
+      simp [hs] at h
+      simpa [logOf, hs] using h.1
+
+theorem getSafe_spill {s : State} (h : getSafe s = true) (he : s.entry = none) (hbig : s.db.length > s.thr) :
+    ∀ op ∈ logOf s, op.ins = true ∨ op.x ∉ s.db.take (s.thr + 1) := by
+  unfold getSafe at h
+  cases hs : s.staging with
+  | none => simp [logOf, hs]
+  | some p =>
+      obtain ⟨log, d⟩ := p
+      simp [hs, he] at h
+      intro op hop
+      have hop' : op ∈ log := by simpa [logOf, hs] using hop
+      rcases h.2 with h2 | h2
+      · omega
+      · exact h2 op hop'
+
+/-- the code as it is, inside the trigger-free region `getSafe` -/
+theorem get_correct_asis {s : State} (I : Inv s) (hc : s.cfg = asIs) (hsafe : getSafe s = true) :
+    (∀ x, x ∈ (get s).2 ↔ x ∈ s.truth) ∧ Inv (get s).1 := by
+  have hsnap : s.cfg.fixSnap = false := by rw [hc]; rfl
+  have hspill : s.cfg.fixSpill = false := by rw [hc]; rfl
+  have hnd := getSafe_nodup hsafe
+  have hmem := fun x => snapshot_asis_nodup hsnap hnd x
+  have overlay : ∀ x, ((x ∈ s.db ∧ x ∉ (stagingSnapshot s).removed) ∨ x ∈ (stagingSnapshot s).added) ↔
+      resolve (lastOf (pairs (logOf s)) x) (x ∈ s.db) := by
+    intro x
+    obtain ⟨ha, hr⟩ := hmem x
+    rw [ha, hr]
+    cases lastOf (pairs (logOf s)) x with
+    | none => simp [resolve]
+    | some b => cases b <;> simp [resolve]
+  have key : ∀ x, ((x ∈ s.db ∧ x ∉ (stagingSnapshot s).removed) ∨ x ∈ (stagingSnapshot s).added) ↔ x ∈ s.truth :=
+    fun x => (overlay x).trans (overlay_correct I x)
+  have mkInv : ∀ e : SEntry, (∀ S, e = .inMem S → ∀ x, x ∈ S ↔ x ∈ s.truth) → Inv { s with entry := some e } := by
+    intro e he
+    obtain ⟨h1, h2, h3, h4, h5, h6, h7, h8, h9, h10, h11⟩ := I
+    exact ⟨h1, h2, h3, h4, h5, h6, h7, fun S hS => he S (by simpa using hS), h9, h10, h11⟩
+  unfold get
+  cases he : s.entry with
+  | some e =>
+      cases e with
+      | inMem S => simp; exact ⟨I.k5 S he, I⟩
+      | tooLarge =>
+          simp
+          refine ⟨fun x => ?_, I⟩
+          rw [← key x]; simp [streamIter]
+  | none =>
+      simp only [fetchEntry]
+      by_cases hbig : s.db.length > s.thr
+      · simp only [hbig, if_true]
+        refine ⟨fun x => ?_, mkInv .tooLarge (by intro S h; cases h)⟩
+        rw [← key x]
+        simp only [spillIter, hspill]
+        have hhalf : ∀ h ∈ s.db.take (s.thr + 1), h ∉ (stagingSnapshot s).removed := by
+          intro h hh hr
+          rw [(hmem h).2, lastOf_pairs_nodup _ hnd] at hr
+          obtain ⟨op, hop, hx, hi⟩ := hr
+          rcases getSafe_spill hsafe he hbig op hop with h1 | h1
+          · rw [hi] at h1; cases h1
+          · rw [hx] at h1; exact h1 hh
+        simp only [Bool.false_eq_true, if_false]
+        rw [spillAsIs_safe _ _ _ _ _ hhalf (by omega)]
+        have hdb : x ∈ s.db ↔ x ∈ s.db.take (s.thr + 1) ∨ x ∈ s.db.drop (s.thr + 1) := by
+          rw [← List.mem_append, List.take_append_drop]
+        have hx := hhalf x
+        simp [hdb]; grind
+      · simp only [hbig, if_false]
+        have hd : ∀ x, x ∈ (stagingSnapshot s).added → x ∉ (stagingSnapshot s).removed := by
+          intro x ha hr
+          rw [(hmem x).1] at ha
+          rw [(hmem x).2, ha] at hr
+          cases hr
+        have hset : ∀ x, x ∈ (stagingSnapshot s).removed.foldl (fun acc y => sremove y acc)
+              ((stagingSnapshot s).added.foldl (fun acc y => sinsert y acc) s.db) ↔ x ∈ s.truth := by
+          intro x
+          rw [← key x, mem_foldl_sremove, mem_foldl_sinsert]
+          have := hd x
+          constructor
+          · rintro ⟨h1, h2 | h2⟩
+            · exact Or.inr h2
+            · exact Or.inl ⟨h2, h1⟩
+          · rintro (⟨h1, h2⟩ | h1)
+            · exact ⟨h2, Or.inr h1⟩
+            · exact ⟨this h1, Or.inl h1⟩
+        exact ⟨hset, mkInv _ (by intro S h; cases h; exact hset)⟩
+
+/-- reachability for the code as it is where every `get` happens inside the trigger-free region -/
+inductive ReachSafe (s0 : State) : State → Prop where
+  | init : ReachSafe s0 s0
+  | step {s s' : State} {e : Ev} {out : Option (List Nat)} :
+      ReachSafe s0 s → (e = .get → getSafe s = true) → fire s e = some (s', out) → ReachSafe s0 s'
+
+theorem inv_step_asis {s s' : State} {e : Ev} {out} (I : Inv s) (hc : s.cfg = asIs)
+    (hsafe : e = .get → getSafe s = true) (h : fire s e = some (s', out)) :
+    Inv s' ∧ (∀ r, out = some r → (∀ x, x ∈ r ↔ x ∈ s.truth) ∧ s'.truth = s.truth) := by
+  cases e with
+  | begin => refine ⟨step_begin I h, ?_⟩; intro r hr; simp only [fire] at h; split at h <;> simp at h; simp [← h.2] at hr
+  | ins x =>
+      simp only [fire] at h; simp at h; obtain ⟨a, ha, rfl, rfl⟩ := h
+      exact ⟨step_write I ha, by intro r hr; simp at hr⟩
+  | rem x =>
+      simp only [fire] at h; simp at h; obtain ⟨a, ha, rfl, rfl⟩ := h
+      exact ⟨step_write I ha, by intro r hr; simp at hr⟩
+  | get =>
+      simp only [fire] at h; simp at h; obtain ⟨rfl, rfl⟩ := h
+      obtain ⟨h1, h2⟩ := get_correct_asis I hc (hsafe rfl)
+      exact ⟨h2, by intro r hr; simp at hr; subst hr; exact ⟨h1, (get_fst_fields s).2⟩⟩
+  | submit => refine ⟨step_submit I h, ?_⟩; intro r hr; simp only [fire] at h; split at h <;> simp at h; simp [← h.2] at hr
+  | commit => refine ⟨step_commit I h, ?_⟩; intro r hr; simp only [fire] at h; split at h <;> simp at h; simp [← h.2] at hr
+  | notify => refine ⟨step_notify I h, ?_⟩; intro r hr; simp only [fire] at h; split at h <;> simp at h; simp [← h.2] at hr
+  | evictEntry => refine ⟨step_evictEntry I h, ?_⟩; intro r hr; simp only [fire] at h; split at h <;> simp at h; simp [← h.2] at hr
+  | evictLog => refine ⟨step_evictLog I h, ?_⟩; intro r hr; simp only [fire] at h; (repeat' split at h) <;> simp at h; simp [← h.2] at hr
+
+theorem inv_reachSafe {thr : Nat} {db0 : List Nat} {s : State} (h : ReachSafe (init asIs thr db0) s) :
+    Inv s ∧ s.cfg = asIs := by
+  induction h with
+  | init => exact ⟨inv_init _ _ _, rfl⟩
+  | step _ hs hf ih => exact ⟨(inv_step_asis ih.1 ih.2 hs hf).1, by rw [fire_cfg hf]; exact ih.2⟩
 
 
 end QbiceVerif.SetCache
